@@ -462,6 +462,9 @@ fn vtext<W: Write>(r: &mut Rng, n: usize, out: &mut W) -> usize {
                 let s2 = format!("{}.{}.{}", parts[0], parts[1], parts[2]);
                 all.push(s2.clone().into_bytes());
                 all.push(format!("v{}", s2).into_bytes());
+                all.push(format!("V{}", s2).into_bytes());
+                all.push(format!("v {}", s2).into_bytes());
+                all.push(format!("v  {}", s2).into_bytes());
                 all.push(format!("{}\n", s2).into_bytes());
                 all.push(format!("x\n{}", s2).into_bytes());
             }
@@ -1178,6 +1181,11 @@ fn timing<W: Write>(_r: &mut Rng, n: usize, out: &mut W) -> usize {
         writeln!(out, "{}", json!({"op":"deepops","unit":bytes(u),"pieces":pieces,"small":small})).unwrap();
         cnt += 1;
     }
+    // two comparators whose tags have up to 400 000 identifiers, on the same tuple (recursion per identifier in a comparison)
+    for (id, k) in [("0", 400_000u64), ("a", 100_000), ("18446744073709551615", 30_000)] {
+        writeln!(out, "{}", json!({"op":"deeptags","id":bytes(id),"n":k})).unwrap();
+        cnt += 1;
+    }
     cnt
 }
 
@@ -1214,7 +1222,12 @@ fn rgarbage<W: Write>(r: &mut Rng, n: usize, out: &mut W) -> usize {
             }
             alts.push(json!({"cs":cs,"seps":seps}));
         }
-        match r.below(30) {
+        match r.below(32) {
+            // nothing but blanks, or nothing at all
+            30 | 31 => {
+                let text = *r.pick(&["", " ", "  ", "\t", " \t", "\t \t ", "          "]);
+                writeln!(out, "{}", json!({"op":"rparse","dst":1,"text":bytes(text),"vs":[]})).unwrap();
+            }
             // surrounded by blanks (no syntax tree: only the text-level clauses apply to the recorded error)
             0..=4 => {
                 let l = *r.pick(&["", " ", "  ", "\t", " \t "]);
